@@ -45,7 +45,8 @@ class BoboGenEventIDUnique(BoboGenEventID):
         :return: A generated event ID.
         """
         with self._lock:
-            now: int = int(time())
+            # The clock may step backwards: never reuse an earlier second
+            now: int = max(int(time()), self._last)
 
             if now == self._last:
                 self._count += 1
